@@ -101,7 +101,8 @@ void Broker::finish_handshake(int conn, const ref::Packet& p) {
 }
 
 void Broker::send_out(int conn, Session& s, OutMsg& m, bool dup) {
-    if (m.qos > 0 && m.pid == 0) { m.pid = s.next_pid++; if (s.next_pid == 0) s.next_pid = 1; }
+    if (m.qos > 0 && m.pid == 0) {   // lowest identifier not held by an unsettled exchange (brokers reuse identifiers as soon as they are free)
+        for (uint16_t cand = 1; cand != 0; ++cand) { bool used = false; for (auto& o : s.out) if (&o != &m && o.pid == cand && o.qos > 0 && o.st != OutMsg::DONE && o.st != OutMsg::QUEUED) used = true; if (!used) { m.pid = cand; break; } } }
     ref::Packet p; p.type = ref::PUBLISH; p.flags = uint8_t((dup ? 8 : 0) | (m.qos << 1) | (m.retain ? 1 : 0)); p.pid = m.pid; p.has_pid = m.qos > 0;
     p.topic = m.topic; p.payload = m.payload; p.props = m.props;
     m.transmissions++; m.sent_on_conns.push_back(conn);
@@ -202,11 +203,13 @@ void Broker::handle(int conn, const ref::Packet& p, const std::string& raw) {
     case ref::PINGREQ: if (cfg.pingresp) { ref::Packet a; a.type = ref::PINGRESP; emit(conn, a); } break;
     case ref::DISCONNECT: c.disconnected = true; close_conn(conn); break;
     case ref::PUBACK: {
-        bool found = false; for (auto& m : s.out) if (m.pid == p.pid && m.qos == 1 && (m.st == OutMsg::SENT || m.st == OutMsg::DONE)) { found = true; m.acks_seen++; m.st = OutMsg::DONE; break; }
+        // identifiers are reused: the exchange in progress is matched first, an already settled one only for duplicate acknowledgements
+        bool found = false; for (auto& m : s.out) if (m.pid == p.pid && m.qos == 1 && m.st == OutMsg::SENT) { found = true; m.acks_seen++; m.st = OutMsg::DONE; break; }
+        if (!found) for (auto& m : s.out) if (m.pid == p.pid && m.qos == 1 && m.st == OutMsg::DONE) { found = true; m.acks_seen++; break; }
         if (!found) violation("C04: PUBACK for packet id " + std::to_string(p.pid) + " that no QoS 1 message of the broker carries");
         break; }
     case ref::PUBREC: {
-        bool found = false; for (auto& m : s.out) if (m.pid == p.pid && m.qos == 2 && m.st != OutMsg::QUEUED && m.st != OutMsg::DONE) { found = true; m.acks_seen++; if (!p.has_rc || p.rc < 0x80) m.st = OutMsg::PUBREC_RCVD; else m.st = OutMsg::DONE; break; }
+        bool found = false; for (auto& m : s.out) if (m.pid == p.pid && m.qos == 2 && (m.st == OutMsg::SENT || m.st == OutMsg::PUBREC_RCVD)) { found = true; m.acks_seen++; if (!p.has_rc || p.rc < 0x80) m.st = OutMsg::PUBREC_RCVD; else m.st = OutMsg::DONE; break; }
         if (!found) { bool done = false; for (auto& m : s.out) if (m.pid == p.pid && m.qos == 2 && m.st == OutMsg::DONE) done = true;
             if (!done) violation("C04: PUBREC for packet id " + std::to_string(p.pid) + " that no QoS 2 message of the broker carries"); }
         ref::Packet r; r.type = ref::PUBREL; r.pid = p.pid; r.has_pid = true; r.has_rc = !found; r.rc = found ? 0 : 0x92; r.has_props = false; emit(conn, r);
